@@ -26,6 +26,7 @@ func TestC14FailedAttemptsPaced(t *testing.T) {
 	rec.Require("failed-attempts-before-first-connection", "failed-attempts-after-lost-connection")
 	c14Hook()
 	evid.Check(t, rec, evid.N(6, 20), func(t *rapid.T) {
+		drawNodeInit(t)
 		d1 := time.Duration(rapid.IntRange(150, 400).Draw(t, "down_before_first_connection_ms")) * time.Millisecond
 		d2 := time.Duration(rapid.IntRange(150, 400).Draw(t, "down_after_lost_connection_ms")) * time.Millisecond
 		desc := fmt.Sprintf("nothing listens for %v from node start, then one connection is accepted and dropped, then nothing listens for %v", d1, d2)
@@ -71,7 +72,7 @@ func runC14Pace(d1, d2 time.Duration) (int, int, error) {
 	port := sim.FreePort()
 	n := &gomavlib.Node{Endpoints: []gomavlib.EndpointConf{gomavlib.EndpointTCPClient{Address: sim.Addr(port)}},
 		Dialect: ardupilotmega.Dialect, OutVersion: gomavlib.V2, OutSystemID: 9, HeartbeatDisable: true}
-	if err := n.Initialize(); err != nil {
+	if err := initNode(&n); err != nil {
 		return 0, 0, fmt.Errorf("BROKEN: %v", err)
 	}
 	rec := sim.StartRecorder(n, sim.Pacing{Kind: "fast"}, nil)
